@@ -730,6 +730,18 @@ pub fn programs(tier: &str) -> Vec<Program> {
     mk("P3b stream||clone->map", vec![c()], vec![vec![Op::Call(0, StreamTN)], vec![Op::CloneCall(0, MapT)]]),
     mk("P3c map,stream||clone map", vec![c(), Obj::CloneOf(0)], vec![vec![Op::Call(0, MapT), Op::Call(0, StreamTN)], vec![Op::Call(1, MapT)]]),
     mk("P3d hash||clone hash||clone->hash", vec![c(), Obj::CloneOf(0)], vec![vec![Op::Call(0, Hash)], vec![Op::Call(1, Hash)], vec![Op::CloneCall(0, Hash)]]),
+    // (two values that differ but hash alike - the same bytes held as text and as a buffer: the answer
+    // of == must not depend on which hash cells other threads have filled by then)
+    mk(
+      "P3e cached(text)==cached(bytes)||hash a||hash b",
+      vec![Obj::Build(Term::cached(Term::Raw("ab\n".into()))), Obj::Build(Term::cached(Term::RawBuf(b"ab\n".to_vec())))],
+      vec![vec![Op::Eq(0, 1)], vec![Op::Call(0, Hash)], vec![Op::Call(1, Hash)]],
+    ),
+    mk(
+      "P3f cached a==clone||hash a||clone hash",
+      vec![c(), Obj::CloneOf(0)],
+      vec![vec![Op::Eq(0, 1)], vec![Op::Call(0, Hash)], vec![Op::Call(1, Hash)]],
+    ),
     // P4 lazily decoded buffers
     mk(
       "P4a rawbuffer source||source||eq",
